@@ -275,3 +275,158 @@ def filter_case(case):
 def run_pool(fn, cases, workers=12):
     with multiprocessing.Pool(workers) as pool:
         return pool.map(fn, cases, chunksize=1)
+
+
+# ------------------------------------------------------------------------------------------------
+# C11: --dry-run changes nothing and previews exactly
+
+def tree_digest(path, exclude=()):
+    """sha1 of every file under `path` (relative name -> digest), excluding some sub-paths"""
+    import hashlib
+    out = {}
+    for root, dirs, files in os.walk(path):
+        rel = os.path.relpath(root, path)
+        if any(rel == e or rel.startswith(e + os.sep) for e in exclude):
+            dirs[:] = []
+            continue
+        for f in files:
+            p = os.path.join(root, f)
+            r = os.path.normpath(os.path.join(rel, f))
+            if any(r == e or r.startswith(e + os.sep) for e in exclude):
+                continue
+            try:
+                out[r] = hashlib.sha1(open(p, 'rb').read()).hexdigest()
+            except OSError:
+                out[r] = 'unreadable'
+    return out
+
+
+def full_snapshot(repo):
+    gd = os.path.join(repo, '.git')
+    return dict(
+        refs=refs(repo), head=head_of(repo) or git(repo, 'rev-parse', 'HEAD', check=False).decode().strip(),
+        status=git(repo, 'status', '--porcelain', check=False).decode('utf-8', 'replace'),
+        config=git(repo, 'config', '--list', '--local').decode('utf-8', 'replace'),
+        remotes=git(repo, 'remote', '-v').decode(),
+        objects=sorted(git(repo, 'cat-file', '--batch-all-objects', '--batch-check').decode().split('\n')),
+        gitdir=tree_digest(gd, exclude=('filter-repo',)),
+        worktree=tree_digest(repo, exclude=('.git',)),
+    )
+
+
+def _strip_ref_lines(stream):
+    """the stream without what names refs: `reset <ref>` stanzas (with their `from`) and the ref of `commit <ref>`.
+    Payloads are skipped by their byte count so that content that looks like commands is not touched."""
+    out, i, n = [], 0, len(stream)
+    drop_from = False
+    while i < n:
+        j = stream.find(b'\n', i)
+        j = n if j < 0 else j + 1
+        line = stream[i:j]
+        i = j
+        if line.startswith(b'data '):
+            try:
+                k = int(line[5:].strip())
+            except ValueError:
+                k = 0
+            out.append(line); out.append(stream[i:i + k]); i += k
+            drop_from = False
+            continue
+        if line.startswith(b'reset '):
+            drop_from = True
+            continue
+        if drop_from and line.startswith(b'from '):
+            drop_from = False
+            continue
+        drop_from = False
+        if line.startswith(b'commit '):
+            out.append(b'commit\n')
+            continue
+        out.append(line)
+    return b''.join(out)
+
+
+def dryrun_case(case):
+    root = tempfile.mkdtemp(prefix='frrs-dry-')
+    res = dict(id=case['id'], failures=[], dist={})
+    def count(k): res['dist'][k] = res['dist'].get(k, 0) + 1
+    try:
+        origin, marks = build_repo(case, root)
+        aux = write_aux(case, root, marks)
+        variant = case['id'] % 3
+        if variant == 0:
+            repo = origin                                   # plain repository, no remote
+            count('layout-no-remote')
+        else:
+            repo = os.path.join(root, 'clone')
+            subprocess.run(['git', 'clone', '-q', '--no-local', origin, repo], check=True, env=GIT_ENV, stdout=subprocess.DEVNULL, stderr=subprocess.DEVNULL)
+            count('layout-clone-with-origin')
+        cli = [a.replace('@AUX@', aux) for a in case['cli']]
+        extra = []
+        k = case['id']
+        if k % 2 == 0: extra.append('--force')
+        if k % 5 == 1: extra.append('--backup')
+        if k % 7 == 2: extra += ['--sensitive', '--no-fetch'] if variant != 0 else []
+        if k % 4 == 3: extra.append('--write-report')
+        if k % 6 == 4: extra += ['--cleanup', 'aggressive']
+        before = full_snapshot(repo)
+        rc, out, err, dt = run_tool(repo, ['--dry-run'] + extra + cli)
+        after = full_snapshot(repo)
+        res['tool_rc'] = rc
+        count('dry-run-ok' if rc == 0 else 'dry-run-refused-or-failed')
+        for key in before:
+            if before[key] != after[key]:
+                if isinstance(before[key], dict):
+                    diff = [k2 for k2 in set(before[key]) | set(after[key]) if before[key].get(k2) != after[key].get(k2)][:5]
+                else:
+                    diff = ''
+                res['failures'].append(('C11', f'--dry-run changed {key} of the repository {diff} (options {extra + cli})'))
+        if os.path.exists(os.path.join(repo, '.git', 'filter-repo')):
+            if any(f.endswith('.bundle') for f in os.listdir(os.path.join(repo, '.git', 'filter-repo'))):
+                res['failures'].append(('C11', '--dry-run --backup wrote a bundle'))
+        # preview = what a real run writes and imports
+        if rc == 0:
+            dry_filtered = open(os.path.join(repo, '.git', 'filter-repo', 'fast-export.filtered'), 'rb').read()
+            copy = os.path.join(root, 'copy')
+            shutil.copytree(repo, copy, symlinks=True)
+            shutil.rmtree(os.path.join(copy, '.git', 'filter-repo'), ignore_errors=True)
+            rc2, _, err2, _ = run_tool(copy, extra + cli + (['--force'] if '--force' not in extra else []))
+            fpath = os.path.join(copy, '.git', 'filter-repo', 'fast-export.filtered')
+            real_filtered = open(fpath, 'rb').read() if os.path.exists(fpath) else None
+            if real_filtered is None:
+                count('real-run-wrote-no-stream')
+            elif real_filtered != dry_filtered:
+                if variant != 0:
+                    # class "origin-migration" (finding N13): the real run first converts refs/remotes/origin/*
+                    # into local branches. Preview a repository in which that conversion was already made:
+                    pre = os.path.join(root, 'pre')
+                    shutil.copytree(repo, pre, symlinks=True)
+                    shutil.rmtree(os.path.join(pre, '.git', 'filter-repo'), ignore_errors=True)
+                    rr = refs(pre)
+                    batch = []
+                    for name, val in sorted(rr.items()):
+                        if name.startswith('refs/remotes/origin/') and name != 'refs/remotes/origin/HEAD':
+                            new = 'refs/heads/' + name[len('refs/remotes/origin/'):]
+                            if new not in rr:
+                                batch.append(f'create {new} {val[0]}')
+                            batch.append(f'delete {name} {val[0]}')
+                    git(pre, 'symbolic-ref', '--delete', 'refs/remotes/origin/HEAD', check=False)
+                    git(pre, 'update-ref', '--no-deref', '--stdin', input=('\n'.join(batch) + '\n').encode())
+                    rc3, _, _, _ = run_tool(pre, ['--dry-run'] + extra + cli + (['--force'] if '--force' not in extra else []))
+                    f3 = os.path.join(pre, '.git', 'filter-repo', 'fast-export.filtered')
+                    pre_filtered = open(f3, 'rb').read() if os.path.exists(f3) else None
+                    if pre_filtered == real_filtered:
+                        res['failures'].append(('C11', f'[origin-migration] the filtered stream of --dry-run on a clone with remote-tracking refs differs from the real run\'s (identical once the refs are migrated by hand)'))
+                        count('preview-identical-after-manual-migration')
+                    else:
+                        res['failures'].append(('C11', f'[other] the filtered stream of --dry-run differs from the real run\'s even after migrating origin refs by hand (real rc={rc2}, dry rc={rc3}; options {extra + cli})'))
+                else:
+                    res['failures'].append(('C11', f'[other] the filtered stream of --dry-run differs from the one the real run wrote (real rc={rc2}; options {extra + cli})'))
+            else:
+                count('preview-identical')
+        return res
+    except Exception as e:
+        res['error'] = repr(e)[:400]
+        return res
+    finally:
+        shutil.rmtree(root, ignore_errors=True)
